@@ -1201,8 +1201,9 @@ def run_property(prop, cases, tier, seed, jobs=None, keep=False, group_size=10, 
         'violations': len(violations),
     }
     if extra_evidence: ev['coverage'].update(extra_evidence)
-    os.makedirs(os.path.join(VERIF, 'evidence'), exist_ok=True)
-    json.dump(ev, open(os.path.join(VERIF, 'evidence', prop + '.json'), 'w'), indent=1, default=str)
+    evdir = os.path.join(VERIF, 'evidence', '.partial') if os.environ.get('VERIF_PARTIAL') else os.path.join(VERIF, 'evidence')
+    os.makedirs(evdir, exist_ok=True)
+    json.dump(ev, open(os.path.join(evdir, prop + '.json'), 'w'), indent=1, default=str)
     log('[%s] %s: cases=%d proved=%d known=%d violations=%d undecided=%d compile_errors=%d obligations=%d discharged=%d wall=%.0fs'
         % (prop, tier, len(real_cases), passed, len(known), len(violations), len(undecided), len(compile_errors), n_obl - kn_obl, n_dis - kn_dis, wall)
         + ' controls_refuted=%d/%d' % (sum(1 for c_ in control_report if c_['refuted']), len(control_report)))
@@ -1239,7 +1240,7 @@ def merge_extra_violations(prop, extra, viols, rc):
     """viols: list of dict(case=<id>, names=[obligation-like strings], replay=<json-able dict>).  Applies the known-findings
     file, prints KNOWN-FINDING / VIOLATION lines, merges `extra` and the counts into evidence/<prop>.json; returns exit code."""
     findings = load_known_findings()
-    evp = os.path.join(VERIF, 'evidence', prop + '.json')
+    evp = os.path.join(VERIF, 'evidence', '.partial' if os.environ.get('VERIF_PARTIAL') else '', prop + '.json')
     ev = json.load(open(evp))
     nv = 0; known = []
     for v in viols:
